@@ -657,6 +657,8 @@ def ev_fcall(e, env, cx, k):
             x = cx.fresh()
             return "(%s <- leaf_wire_%s %s ;; %s)" % (x, name, " ".join(v.s for v in vals), k(Val(x, callee["ret"])))
         return ev_list(args, env, cx, kcall)
+    if name in [f for f, _ in FUNCS]:
+        raise TErr("call %s: the callee could not be translated" % e[1])
     raise TErr("call %s not supported" % e[1])
 
 
